@@ -212,7 +212,7 @@ func (m *Machine) allTags() []string {
 			}
 		}
 		for _, l := range m.fc.Loops {
-			for _, e := range l.Invariants {
+			for _, e := range append(append([]*Clause{}, l.Invariants...), l.Iters...) {
 				for _, t := range e.Tags {
 					set[t] = true
 				}
@@ -569,6 +569,11 @@ func (m *Machine) loopSpec(fn *ssa.Function, ord int) *LoopSpec {
 
 // localBindings resolves source-level variable names to the SSA values live at a loop header.
 func (m *Machine) localBindings(st *State, fr *Frame, header *ssa.BasicBlock, names []string, bind map[string]Value) {
+	m.localBindingsAt(st, fr, header, header, names, bind)
+}
+
+// localBindingsAt resolves names as seen at block `at` (phis of `header` first).
+func (m *Machine) localBindingsAt(st *State, fr *Frame, at, header *ssa.BasicBlock, names []string, bind map[string]Value) {
 	for _, n := range names {
 		if _, ok := bind[n]; ok {
 			continue
@@ -607,7 +612,7 @@ func (m *Machine) localBindings(st *State, fr *Frame, header *ssa.BasicBlock, na
 		}
 		// a loop-invariant local defined before the loop: find a value named by DebugRef-less heuristics:
 		// any instruction dominating the header whose source position defines the identifier.
-		if v, ok := m.findNamedValue(fr, header, n); ok {
+		if v, ok := m.findNamedValue(fr, at, n); ok {
 			bind[n] = v
 			continue
 		}
@@ -664,7 +669,19 @@ func (m *Machine) enterLoopHeader(st *State, fr *Frame, from, header *ssa.BasicB
 		}
 		return true
 	}
-	if spec == nil || (spec.Unroll == 0 && len(spec.Invariants) == 0) {
+	if m.refute {
+		// bounded refutation mode (only used to find concrete inputs for replay; never counted as proof)
+		if !isBack {
+			fr.loopHit[header.Index] = 0
+		}
+		fr.loopHit[header.Index]++
+		if fr.loopHit[header.Index] > 12 {
+			st.dead = true
+			return false
+		}
+		return true
+	}
+	if spec == nil || (spec.Unroll == 0 && len(spec.Invariants) == 0 && len(spec.Iters) == 0) {
 		m.problem("loop %d of %s has neither invariant nor unroll bound", ord, relName(fr.fn))
 		st.dead = true
 		return false
@@ -715,6 +732,31 @@ func (m *Machine) enterLoopHeader(st *State, fr *Frame, from, header *ssa.BasicB
 		}
 	}
 	if isBack {
+		if cut := fr.cuts[header.Index]; cut != nil && len(spec.Iters) > 0 {
+			bind := m.currentBindings(st, fr)
+			for k, v := range cut.lets {
+				bind[k] = v
+			}
+			savedBase := st.evBase
+			st.evBase = cut.evBase
+			for i, it := range spec.Iters {
+				m.localBindingsAt(st, fr, from, header, paramNames(it), bind)
+				v, ok := m.evalClause(st, it, bind)
+				if !ok {
+					continue
+				}
+				t := it.Tags
+				if len(t) == 0 {
+					t = m.safeTagsFor(fr.fn)
+				}
+				label := it.Label
+				if label == "" {
+					label = fmt.Sprint(i)
+				}
+				m.recordOrOblige(st, fr, "iter", fmt.Sprintf("loop%d.%s", ord, label), v.(*Term), t, it.Raw+"  ["+it.Line+"]")
+			}
+			st.evBase = savedBase
+		}
 		evalInv("inv.preserve")
 		// check that the havoc set covered everything the body wrote
 		cut := fr.cuts[header.Index]
@@ -764,6 +806,7 @@ func (m *Machine) enterLoopHeader(st *State, fr *Frame, from, header *ssa.BasicB
 	m.timePasses(st)
 	cut.heapAt = cloneHeap(st.heap)
 	cut.freshAt = len(st.fresh)
+	cut.evBase = len(st.events)
 	fr.cuts[header.Index] = cut
 	// assume the invariants
 	fr.prev = from
